@@ -8,7 +8,6 @@
 //! specification (`Yv.C16.Spec.sstep`) and compares.
 
 use std::cell::RefCell;
-use std::collections::BTreeMap;
 use std::panic::{AssertUnwindSafe, catch_unwind};
 use std::rc::Rc;
 use yash_env::Env;
@@ -17,7 +16,7 @@ use yash_env::semantics::{ExitStatus, Field};
 use yash_env::system::Mode;
 use yash_env::system::r#virtual::{FileBody, Inode};
 use yash_env::source::Location;
-use yash_env::variable::{Context, PositionalParams, Scope, Value, Variable, VariableSet};
+use yash_env::variable::{Context, PositionalParams, Quirk, Scope, Value, Variable, VariableSet};
 use yv_harness::cli::Args;
 use yv_harness::out::CasesWriter;
 use yv_harness::rng::Rng;
@@ -104,6 +103,7 @@ enum Mut {
     Assign(Val, Option<u64>),
     Export(bool),
     ReadOnly(u64),
+    SetQuirk(bool),
 }
 
 impl Mut {
@@ -112,6 +112,7 @@ impl Mut {
             Mut::Assign(v, l) => format!("(MAssign {} {})", v.coq(), coq::opt(l.map(coq::n))),
             Mut::Export(b) => format!("(MExport {})", coq::b(*b)),
             Mut::ReadOnly(l) => format!("(MReadOnly {})", coq::n(*l)),
+            Mut::SetQuirk(q) => format!("(MSetQuirk {})", coq::b(*q)),
         }
     }
     fn show(&self) -> String {
@@ -119,6 +120,7 @@ impl Mut {
             Mut::Assign(v, l) => format!("assign({},@{:?})", v.show(), l),
             Mut::Export(b) => format!("export({b})"),
             Mut::ReadOnly(l) => format!("make_read_only(@{l})"),
+            Mut::SetQuirk(q) => format!("set_quirk({})", if *q { "LineNumber" } else { "None" }),
         }
     }
 }
@@ -207,13 +209,13 @@ fn loc_id(l: &Location) -> u64 {
 }
 
 fn var_coq(v: &Variable) -> String {
-    assert!(v.quirk.is_none());
     format!(
-        "(mkVar {} {} {} {})",
+        "(mkVar {} {} {} {} {})",
         coq::opt(v.value.as_ref().map(|x| Val::of_real(x).coq())),
         coq::opt(v.last_assigned_location.as_ref().map(|l| coq::n(loc_id(l)))),
         coq::b(v.is_exported),
-        coq::opt(v.read_only_location.as_ref().map(|l| coq::n(loc_id(l))))
+        coq::opt(v.read_only_location.as_ref().map(|l| coq::n(loc_id(l)))),
+        coq::b(matches!(v.quirk, Some(Quirk::LineNumber)))
     )
 }
 
@@ -229,7 +231,7 @@ fn var_show(v: &Variable) -> String {
             Some(l) => format!("/ro@{}", loc_id(l)),
             None => String::new(),
         }
-    )
+    ) + if v.quirk.is_some() { "/quirk" } else { "" }
 }
 
 fn ovar_coq(v: Option<&Variable>) -> String {
@@ -358,6 +360,10 @@ fn apply_muts(set: &mut VariableSet, n: &str, sc: Sc, ms: &[Mut]) -> String {
             }
             Mut::ReadOnly(l) => {
                 var.make_read_only(Location::dummy(l.to_string()));
+                rs.push("MUnit".into());
+            }
+            Mut::SetQuirk(q) => {
+                var.set_quirk(if *q { Some(Quirk::LineNumber) } else { None });
                 rs.push("MUnit".into());
             }
         }
@@ -508,8 +514,9 @@ impl Gen {
                     let l = if rng.chance(1, 5) { None } else { Some(self.loc()) };
                     Mut::Assign(v, l)
                 }
-                58..=69 => Mut::Export(true),
-                70..=77 => Mut::Export(false),
+                58..=68 => Mut::Export(true),
+                69..=75 => Mut::Export(false),
+                76..=79 => Mut::SetQuirk(rng.chance(3, 4)),
                 _ => Mut::ReadOnly(self.loc()),
             })
             .collect()
@@ -889,6 +896,24 @@ fn corpus() -> Vec<(Vec<String>, Vec<Op>)> {
                 Op::GetOrNew(s("b"), Sc::Global, vec![asg("y", 7)]),
             ],
         ),
+        // a quirk variable like LINENO (`VariableSet::init`): no stored value;
+        // the quirk follows the variable through clone and migration
+        (
+            vec![a()],
+            vec![
+                Op::GetOrNew(a(), Sc::Global, vec![Mut::SetQuirk(true)]),
+                Op::GetOrNew(a(), Sc::Global, vec![Mut::Export(true)]),
+                Op::Push(Ctx::Volatile),
+                Op::GetOrNew(a(), Sc::Volatile, vec![asg("5", 1)]),
+                Op::Push(Ctx::Regular(vec![])),
+                Op::GetOrNew(a(), Sc::Local, vec![Mut::SetQuirk(false)]),
+                Op::GetOrNew(a(), Sc::Global, vec![Mut::ReadOnly(2)]),
+                Op::Pop,
+                Op::Unset(a(), Sc::Global),
+                Op::Pop,
+                Op::Unset(a(), Sc::Global),
+            ],
+        ),
         // documented panic
         (vec![a()], vec![Op::GetOrNew(a(), Sc::Volatile, vec![])]),
     ]
@@ -913,6 +938,8 @@ enum Cmd {
     SetParams(Vec<String>),
     Exec(Vec<(String, Val)>),
     Read(Vec<(String, Val)>, String, String),
+    For(String, Vec<String>, Vec<Cmd>),
+    Return,
 }
 
 fn sq(s: &str) -> String {
@@ -946,7 +973,6 @@ fn strs_coq(l: &[String]) -> String {
 struct Render {
     defs: Vec<String>,
     next_fn: usize,
-    next_probe: usize,
 }
 
 impl Render {
@@ -956,10 +982,7 @@ impl Render {
     fn cmd(&mut self, c: &Cmd) -> String {
         match c {
             Cmd::Assign(a) => temps_sh(a).trim_end().to_string(),
-            Cmd::Probe(t) => {
-                self.next_probe += 1;
-                format!("{}vars {}", temps_sh(t), self.next_probe)
-            }
+            Cmd::Probe(t) => format!("{}vars -", temps_sh(t)),
             Cmd::Special(t) => format!("{}:", temps_sh(t)),
             Cmd::Call(t, body, args) => {
                 self.next_fn += 1;
@@ -1000,10 +1023,15 @@ impl Render {
                 let a: Vec<String> = ps.iter().map(|s| sq(s)).collect();
                 format!("set -- {}", a.join(" ")).trim_end().to_string()
             }
-            Cmd::Exec(t) => {
-                self.next_probe += 1;
-                format!("{}/bin/envp {}", temps_sh(t), self.next_probe)
+            // `probe E` marks the place of the execution in the trace
+            Cmd::Exec(t) => format!("probe E\n{}/bin/envp", temps_sh(t)),
+            Cmd::For(n, vals, body) => {
+                let v: Vec<String> = vals.iter().map(|s| sq(s)).collect();
+                let mut lines = self.cmds(body);
+                lines.push(":".into());
+                format!("for {n} in {}; do\n{}\ndone", v.join(" "), lines.join("\n"))
             }
+            Cmd::Return => "return".into(),
             // the here-document body must start in column 0
             Cmd::Read(t, n, line) => format!("{}read {n} <<E\n{line}\nE", temps_sh(t)),
         }
@@ -1034,6 +1062,8 @@ fn cmd_coq(c: &Cmd) -> String {
         Cmd::SetParams(ps) => format!("(CSetParams {})", strs_coq(ps)),
         Cmd::Exec(t) => format!("(CExec {})", temps_coq(t)),
         Cmd::Read(t, n, line) => format!("(CRead {} {} {})", temps_coq(t), coq::s(n), coq::s(line)),
+        Cmd::For(n, vals, body) => format!("(CFor {} {} {})", coq::s(n), strs_coq(vals), cmds_coq(body)),
+        Cmd::Return => "CReturn".into(),
     }
 }
 
@@ -1090,8 +1120,11 @@ fn vars_main(env: &mut VEnv, args: Vec<Field>) -> BuiltinFuture<'_> {
 }
 
 fn emit_script(w: &mut CasesWriter, cs: &[Cmd], stream: &str) {
-    let mut r = Render { defs: vec![], next_fn: 0, next_probe: 0 };
-    let lines = r.cmds(cs);
+    let mut r = Render { defs: vec![], next_fn: 0 };
+    let mut lines = r.cmds(cs);
+    // the callers end every script with a probe: give the last one its tag
+    assert!(matches!(cs.last(), Some(Cmd::Probe(t)) if t.is_empty()));
+    *lines.last_mut().unwrap() = "vars END".into();
     let script = format!("{}\n{}\n", r.defs.join("\n"), lines.join("\n"));
     let (out, state) = vsh::run_shell(
         RunOpts { argv: vec!["-c".into(), script.clone()], ..Default::default() },
@@ -1103,25 +1136,35 @@ fn emit_script(w: &mut CasesWriter, cs: &[Cmd], stream: &str) {
             state.borrow_mut().file_system.save("/bin/envp", Rc::new(RefCell::new(inode))).unwrap();
         },
     );
-    // observations by probe number
-    let mut seen: BTreeMap<usize, (String, String)> = BTreeMap::new();
+    // observations in execution order; the environment of the i-th executed
+    // program (processes are numbered in the order of their creation) goes to
+    // the i-th `probe E` mark
+    let mut seen: Vec<(String, String)> = vec![];
+    let mut exec_slots: Vec<usize> = vec![];
+    let mut finished = false;
     for item in &out.trace {
-        if item.kind == "vars" && item.in_main {
-            let k: usize = item.args[0].parse().unwrap();
-            seen.insert(k, (item.args[1].clone(), item.args[2].clone()));
+        if !item.in_main {
+            continue;
+        }
+        if item.kind == "vars" {
+            finished |= item.args[0] == "END";
+            seen.push((item.args[1].clone(), item.args[2].clone()));
+        } else if item.kind == "probe" && item.args.first().map(|s| s.as_str()) == Some("E") {
+            exec_slots.push(seen.len());
+            seen.push((String::new(), String::new()));
         }
     }
+    let mut envs: Vec<(String, String)> = vec![];
     let mut others: Vec<String> = vec![];
     if let Some(state) = &state {
         for (_pid, p) in state.borrow().processes.iter() {
-            if let Some((path, args, envs)) = p.last_exec() {
+            if let Some((path, _args, penv)) = p.last_exec() {
                 if path.to_str() != Ok("/bin/envp") {
                     continue;
                 }
-                let k: usize = args[1].to_str().unwrap().parse().unwrap();
                 let mut mine = vec![];
                 let mut rest = vec![];
-                for e in envs {
+                for e in penv {
                     let e = e.to_str().unwrap().to_string();
                     if SCRIPT_NAMES.iter().any(|n| e.starts_with(&format!("{n}="))) {
                         mine.push(e);
@@ -1139,14 +1182,24 @@ fn emit_script(w: &mut CasesWriter, cs: &[Cmd], stream: &str) {
                     mine.push("!unrelated environment changed".into());
                 }
                 let envc: Vec<String> = mine.iter().map(|s| coq::s(s)).collect();
-                seen.insert(k, (format!("(PEnv {})", str_list(&envc)), format!("exec env {mine:?}")));
+                envs.push((format!("(PEnv {})", str_list(&envc)), format!("exec env {mine:?}")));
             }
         }
     }
-    let trace: Vec<String> = seen.values().map(|(t, _)| t.clone()).collect();
-    let human: Vec<String> = seen.iter().map(|(k, (_, h))| format!("#{k}: {h}")).collect();
+    if envs.len() > exec_slots.len() {
+        w.count("script:more_executions_than_marks");
+        seen.push(("(PEnv [[33]%N])".into(), "!more executions than marks".into()));
+    }
+    for (i, slot) in exec_slots.iter().enumerate() {
+        if let Some(e) = envs.get(i) {
+            seen[*slot] = e.clone();
+        }
+    }
+    // a mark without an execution: the shell exited on a failed temporary assignment
+    seen.retain(|(t, _)| !t.is_empty());
+    let trace: Vec<String> = seen.iter().map(|(t, _)| t.clone()).collect();
+    let human: Vec<String> = seen.iter().enumerate().map(|(k, (_, h))| format!("#{}: {h}", k + 1)).collect();
     let panicked = out.panicked.is_some() || out.deadlock || out.timeout;
-    let finished = seen.contains_key(&r.next_probe);
     w.count(&format!("{stream}:cases"));
     w.count(if finished { "script:ran_to_the_end" } else { "script:shell_exited_on_error" });
     w.count(&format!("script:probes:{}", (seen.len() / 4) * 4));
@@ -1174,6 +1227,7 @@ fn emit_script(w: &mut CasesWriter, cs: &[Cmd], stream: &str) {
         cs.iter().any(|c| match c {
             Cmd::Probe(t) | Cmd::Special(t) | Cmd::Exec(t) | Cmd::Read(t, _, _) => !t.is_empty(),
             Cmd::Call(t, b, _) => !t.is_empty() || has_temp(b),
+            Cmd::For(_, _, b) => has_temp(b),
             Cmd::Typeset { temps, .. } => !temps.is_empty(),
             _ => false,
         })
@@ -1289,7 +1343,12 @@ impl SGen<'_> {
                     }
                     let n = 1 + self.rng.below(5);
                     let t = self.temps();
-                    let body = self.cmds(n, depth + 1);
+                    let mut body = self.cmds(n, depth + 1);
+                    // `return` somewhere in the body: the rest does not run
+                    if self.rng.chance(1, 4) {
+                        let at = self.rng.below(body.len() + 1);
+                        body.insert(at, Cmd::Return);
+                    }
                     Cmd::Call(t, body, self.args())
                 }
                 56..=71 => Cmd::Typeset {
@@ -1309,7 +1368,18 @@ impl SGen<'_> {
                     Cmd::Readonly(self.name(), v)
                 }
                 80..=87 => Cmd::Unset(self.name()),
-                88..=90 => Cmd::SetParams(self.args()),
+                88 => Cmd::SetParams(self.args()),
+                89..=90 => {
+                    if depth >= 3 {
+                        continue;
+                    }
+                    let k = self.rng.below(3);
+                    let vals: Vec<String> =
+                        (0..k).map(|_| (*self.rng.pick(&["1", "2", "x y", ""])).to_string()).collect();
+                    let n = 1 + self.rng.below(3);
+                    let name = self.name();
+                    Cmd::For(name, vals, self.cmds(n, depth + 1))
+                }
                 91..=94 => {
                     let t = if self.rng.chance(1, 2) { self.temps() } else { vec![] };
                     let n = self.name();
@@ -1427,6 +1497,38 @@ fn script_corpus() -> Vec<Vec<Cmd>> {
                 Cmd::Typeset { temps: vec![], global: false, export: false, readonly: false, name: a(), value: Some(sc("l")) },
                 Cmd::Probe(vec![]), Cmd::Unset(a()), Cmd::Probe(vec![])], vec![]),
             Cmd::Probe(vec![]),
+        ],
+        // for: the variable is assigned in the enclosing scope and persists
+        vec![
+            Cmd::For(a(), vec![s("1"), s("2")], vec![Cmd::Probe(vec![]), Cmd::Exec(vec![])]),
+            Cmd::Probe(vec![]),
+            Cmd::Call(vec![(a(), sc("t"))], vec![
+                Cmd::Typeset { temps: vec![], global: false, export: false, readonly: false, name: s("b"), value: None },
+                Cmd::For(s("b"), vec![s("x")], vec![Cmd::Probe(vec![])]),
+                Cmd::For(a(), vec![s("y"), s("z")], vec![Cmd::Probe(vec![])]),
+                Cmd::Probe(vec![])], vec![]),
+            Cmd::Probe(vec![]),
+            Cmd::Readonly(s("c"), None),
+            Cmd::For(s("c"), vec![s("1")], vec![Cmd::Probe(vec![])]),
+            Cmd::Probe(vec![]),
+        ],
+        // return out of nested calls: every level pops its own contexts
+        vec![
+            Cmd::Assign(vec![(a(), sc("g"))]),
+            Cmd::SetParams(vec![s("o")]),
+            Cmd::Call(vec![(a(), sc("t1"))], vec![
+                Cmd::Typeset { temps: vec![], global: false, export: false, readonly: false, name: s("b"), value: Some(sc("l1")) },
+                Cmd::Call(vec![(s("b"), sc("t2"))], vec![
+                    Cmd::Typeset { temps: vec![], global: false, export: false, readonly: false, name: s("c"), value: Some(sc("l2")) },
+                    Cmd::Probe(vec![]),
+                    Cmd::Return,
+                    Cmd::Assign(vec![(a(), sc("never"))]),
+                    Cmd::Probe(vec![])], vec![s("p2")]),
+                Cmd::Probe(vec![]),
+                Cmd::Return,
+                Cmd::Probe(vec![])], vec![s("p1")]),
+            Cmd::Probe(vec![]),
+            Cmd::Exec(vec![]),
         ],
         // read on a temporarily assigned variable: the value read stays, exported
         vec![
